@@ -119,7 +119,8 @@ var pathSpecs = []gTy{
 }
 
 var safeWords = []string{"name", "title", "barId", "accountId", "count", "flag", "kind", "note", "amount", "when", "owner", "parentRef", "itemCode", "labelText", "weight", "extra", "tag", "memo", "score", "level"}
-var awkwardWords = []string{"fooID", "a1b", "HTTPServer", "x2", "userURL", "v2Id"}
+// single-word names with capitals (ID, URL, Label): the proto name has no underscore and the JSON name still differs (seeded C05-E)
+var awkwardWords = []string{"fooID", "a1b", "HTTPServer", "x2", "userURL", "v2Id", "ID", "URL", "Label"}
 var nouns = []string{"Thing", "Widget", "Order", "Invoice", "Gadget", "Parcel", "Ticket", "Ledger"}
 var pkgNames = []string{"foo.v1", "bar.v2", "acme.billing.v1", "shop.v3", "zed.v10"}
 
